@@ -9,10 +9,15 @@ from __future__ import annotations
 
 INT_POOL = [7, 12, 13, 17, 23, 37, 42, 60, 64, 99, 128, 255, 256, 360, 404, 500, 512, 1024, 3600, 4096, 8080, 65535, 86400, 123456]
 SMALL = [0, 1, 2, 3, 4, 5, 6, 8, 9, 10, 11, 15, 20, 21]
-FLOATS = ["1.5", "2.75", "0.25", "3.14159", "99.9", "2.5e-3", "6.02e23", "0.001"]
+FLOATS = ["1.5", "2.75", "0.25", "3.14159", "99.9", "2.5e-3", "6.02e23", "0.001", "0.0"]
+
+
+BOUNDARY = [0, 0, 1, 2, 3, 4, 5, 10, 100, 1000]  # the values of the default allowed list (zero twice: it is falsy as well)
 
 
 def _fresh(rng, used):
+    if rng.random() < 0.12:
+        return rng.choice(BOUNDARY)  # ordinary literals of these values are judged by allowed_numbers like any other (a setting may leave them out)
     for _ in range(200):
         v = rng.choice(INT_POOL) if rng.random() < 0.5 else rng.randint(6, 99999)
         if v not in used:
